@@ -222,7 +222,7 @@ func rectInteraction(ps Paths, r RectJ) (crossings int, vertexOn, along bool) {
 
 func init() {
 	defProp("C06",
-		"rapid-generated non-empty rectangles (extent 20 .. 2^27, also tiny ones) x 1-3 closed paths of 3-10 vertices (a few degenerate) whose vertices are drawn from: rectangle corners, points on its edges and their extensions, inside, one unit off a corner, around and far away; both RectClipPaths64 and RectClipPath64; oracle: result vertices within the rectangle enlarged by 1; exact winding number of the result == winding number of the input at probes inside the rectangle and == 0 outside, for probes farther than 2.001 from the rectangle edges and every input edge; paths within the rectangle returned unchanged in order, all-outside inputs give []; non-trivial = at least one path edge properly crosses a rectangle edge and probes were judged inside and outside",
+		"rapid-generated non-empty rectangles (extent 20 .. 2^27, 2^33, 2^40, also tiny ones) x 1-3 closed paths of 3-10 vertices (a few degenerate) whose vertices are drawn from: rectangle corners, points on its edges and their extensions, inside, one unit off a corner, around and far away; both RectClipPaths64 and RectClipPath64; oracle: result vertices within the rectangle enlarged by 1; exact winding number of the result == winding number of the input at probes inside the rectangle and == 0 outside, for probes farther than 2.001 from the rectangle edges and every input edge; paths within the rectangle returned unchanged in order, all-outside inputs give []; non-trivial = at least one path edge properly crosses a rectangle edge and probes were judged inside and outside",
 		[]string{"closed paths with fewer than 3 points are dropped by the clipper by design and are not expected back"},
 		drawC06, judgeC06)
 }
